@@ -3,7 +3,9 @@ package ssaexec
 import (
 	"fmt"
 	"go/types"
+	"math"
 	"os"
+	"strconv"
 	"strings"
 
 	"golang.org/x/tools/go/ssa"
@@ -159,7 +161,7 @@ func intrinsics() map[string]intrinsic {
 		default:
 			st.end("PANIC", "reflect: Elem of invalid type %s", t)
 		}
-		return st.c.Const(st.w.tokenFor(e), 64)
+		return st.reflectType(e)
 	}
 	m[rtPkg+"rtype_Key"] = func(st *State, fn *ssa.Function, args []Value) Value {
 		t := st.tokenType(args[0])
@@ -167,7 +169,7 @@ func intrinsics() map[string]intrinsic {
 		if !ok {
 			st.end("PANIC", "reflect: Key of non-map type %s", t)
 		}
-		return st.c.Const(st.w.tokenFor(mt.Key()), 64)
+		return st.reflectType(mt.Key())
 	}
 	m[rtPkg+"rtype_Len"] = func(st *State, fn *ssa.Function, args []Value) Value {
 		t := st.tokenType(args[0])
@@ -214,14 +216,6 @@ func intrinsics() map[string]intrinsic {
 	m[rtPkg+"IfaceIndir"] = func(st *State, fn *ssa.Function, args []Value) Value {
 		return st.c.Bool(!pointerShaped(st.tokenType(args[0])))
 	}
-	m[rtPkg+"RType2Type"] = func(st *State, fn *ssa.Function, args []Value) Value {
-		// reflect.Type values are only carried into error values: opaque
-		p := tm(args[0])
-		if p.IsConst() && p.V == 0 {
-			return Agg{st.zero64, st.zero64}
-		}
-		return Agg{st.c.Const(st.w.tokenFor(opaqueReflectType), 64), p}
-	}
 	// ---- reflect allocation / copy linknames (decoder & encoder packages)
 	for _, pk := range []string{"github.com/goccy/go-json/internal/decoder.", "github.com/goccy/go-json/internal/encoder.",
 		"github.com/goccy/go-json/internal/encoder/vm.", "github.com/goccy/go-json/internal/encoder/vm_indent.",
@@ -261,8 +255,168 @@ func intrinsics() map[string]intrinsic {
 			return st.c.Const(uint64(n), 64)
 		}
 	}
+	// ---- reflect: Type values are (itab(reflect.Type,*reflect.rtype), type token)
+	m["reflect.TypeOf"] = func(st *State, fn *ssa.Function, args []Value) Value {
+		iv := args[0].(Agg)
+		dyn := st.dynType(iv, nil)
+		if dyn == nil {
+			return Agg{st.zero64, st.zero64}
+		}
+		return st.reflectType(dyn)
+	}
+	m[rtPkg+"RType2Type"] = func(st *State, fn *ssa.Function, args []Value) Value {
+		p := tm(args[0])
+		if p.IsConst() && p.V == 0 {
+			return Agg{st.zero64, st.zero64}
+		}
+		return st.reflectType(st.tokenType(args[0]))
+	}
+	wrapT := func(name string) {
+		inner := m[rtPkg+"rtype_"+name]
+		m["(*reflect.rtype)."+name] = func(st *State, fn *ssa.Function, args []Value) Value {
+			return inner(st, fn, args)
+		}
+	}
+	for _, n := range []string{"Elem", "Key", "Kind", "Size", "Len", "String", "Name", "PkgPath", "NumMethod", "Align", "FieldAlign"} {
+		wrapT(n)
+	}
+	implements := func(st *State, fn *ssa.Function, args []Value) Value {
+		t := st.tokenType(args[0])
+		u := st.tokenType(args[1].(Agg)[1])
+		it, ok := u.Underlying().(*types.Interface)
+		if !ok {
+			st.end("PANIC", "reflect: non-interface type passed to Type.Implements")
+		}
+		return st.c.Bool(types.Implements(t, it))
+	}
+	m["(*reflect.rtype).Implements"] = implements
+	m[rtPkg+"rtype_Implements"] = implements
+	ptrTo := func(st *State, fn *ssa.Function, args []Value) Value {
+		a := args[0]
+		if ag, ok := a.(Agg); ok {
+			a = ag[1]
+		}
+		return st.reflectType(types.NewPointer(st.tokenType(a)))
+	}
+	m["reflect.PtrTo"] = ptrTo
+	m["reflect.PointerTo"] = ptrTo
+	// ---- reflect.Value mini-model: (type token, data word, flag) -- only what
+	// interfaceDecoder.Decode and the marshaler plumbing use
+	m["reflect.ValueOf"] = func(st *State, fn *ssa.Function, args []Value) Value {
+		iv := args[0].(Agg)
+		dyn := st.dynType(iv, nil)
+		if dyn == nil {
+			return Agg{st.zero64, st.zero64, st.zero64}
+		}
+		return Agg{st.c.Const(st.w.tokenFor(dyn), 64), iv[1], st.c.Const(uint64(reflectKind(dyn)), 64)}
+	}
+	valType := func(st *State, v Value) types.Type {
+		a := v.(Agg)
+		t := tm(a[0])
+		if t.IsConst() && t.V == 0 {
+			st.end("PANIC", "reflect: call of method on zero Value")
+		}
+		return st.tokenType(a[0])
+	}
+	m["(reflect.Value).NumMethod"] = func(st *State, fn *ssa.Function, args []Value) Value {
+		t := valType(st, args[0])
+		if it, ok := t.Underlying().(*types.Interface); ok {
+			return st.c.Const(uint64(it.NumMethods()), 64)
+		}
+		ms := types.NewMethodSet(t)
+		n := 0
+		for i := 0; i < ms.Len(); i++ {
+			if ms.At(i).Obj().Exported() {
+				n++
+			}
+		}
+		return st.c.Const(uint64(n), 64)
+	}
+	m["(reflect.Value).CanInterface"] = func(st *State, fn *ssa.Function, args []Value) Value { return st.c.True }
+	m["(reflect.Value).IsValid"] = func(st *State, fn *ssa.Function, args []Value) Value {
+		return st.c.BNot(st.c.Eq(tm(args[0].(Agg)[0]), st.zero64))
+	}
+	m["(reflect.Value).Kind"] = func(st *State, fn *ssa.Function, args []Value) Value {
+		return st.c.Const(uint64(reflectKind(valType(st, args[0]))), 64)
+	}
+	m["(reflect.Value).Type"] = func(st *State, fn *ssa.Function, args []Value) Value {
+		return st.reflectType(valType(st, args[0]))
+	}
+	m["(reflect.Value).Interface"] = func(st *State, fn *ssa.Function, args []Value) Value {
+		t := valType(st, args[0])
+		a := args[0].(Agg)
+		if _, ok := t.Underlying().(*types.Interface); ok {
+			// the element inside the interface the data word points to
+			inner := st.loadT(tm(a[1]), t).(Agg)
+			if isEmptyIface(t) {
+				return inner
+			}
+			return st.changeInterface(inner, t, types.NewInterfaceType(nil, nil))
+		}
+		return Agg{a[0], a[1]}
+	}
+	// ---- runtime map linknames used by the decoder
+	dp := "github.com/goccy/go-json/internal/decoder."
+	m[dp+"newArray"] = m[dp+"unsafe_NewArray"]
+	m[dp+"makemap"] = func(st *State, fn *ssa.Function, args []Value) Value {
+		mt, ok := st.tokenType(args[0]).Underlying().(*types.Map)
+		if !ok {
+			st.end("PANIC", "makemap of non-map type")
+		}
+		return st.newMap(mt.Key(), mt.Elem())
+	}
+	m[dp+"mapassign"] = func(st *State, fn *ssa.Function, args []Value) Value {
+		mo := st.mapObj(args[1], true)
+		k := st.loadT(tm(args[2]), mo.ktyp)
+		v := st.loadT(tm(args[3]), mo.vtyp)
+		st.mapUpdate(args[1], k, v, nil)
+		return nil
+	}
+	m[dp+"mapassign_faststr"] = func(st *State, fn *ssa.Function, args []Value) Value {
+		mo := st.mapObj(args[1], true)
+		slot := st.alloc(int(st.tc.of(mo.vtyp).size), "mapslot")
+		st.mapUpdate(args[1], args[2], slotRef{slot}, nil)
+		return slot
+	}
+	// ---- strconv.ParseFloat: acceptance from the real strconv.readFloat, value uninterpreted
+	m["strconv.ParseFloat"] = func(st *State, fn *ssa.Function, args []Value) Value {
+		sv := args[0].(Agg)
+		n := st.concreteInt(tm(sv[1]), "ParseFloat length")
+		bs := st.seqBytes(tm(sv[0]), tm(sv[1]))
+		allConst := true
+		raw := make([]byte, n)
+		for i, b := range bs {
+			if !b.IsConst() {
+				allConst = false
+				break
+			}
+			raw[i] = byte(b.V)
+		}
+		if allConst {
+			bits := st.concreteInt(tm(args[1]), "bitSize")
+			f, err := strconv.ParseFloat(string(raw), bits)
+			if err != nil {
+				return Agg{st.c.Const(math.Float64bits(f), 64), st.opaqueError("strconv.ParseFloat: " + err.Error())}
+			}
+			return Agg{st.c.Const(math.Float64bits(f), 64), Agg{st.zero64, st.zero64}}
+		}
+		rf := st.w.P.FindFunc("strconv", "readFloat")
+		if rf == nil {
+			st.end("UNSUPPORTED", "strconv.readFloat not found")
+		}
+		r := st.callFunction(rf, []Value{args[0]}, nil).(Agg)
+		// (mantissa uint64, exp int, neg, trunc, hex bool, i int, ok bool)
+		okT := st.c.BAnd(tm(r[6]), st.c.Eq(tm(r[5]), st.c.Const(uint64(n), 64)))
+		if st.branch(okT, "parsefloat-ok") {
+			val := st.c.UF("parsefloat", 64, tm(r[0]), tm(r[1]), st.c.B2BV(tm(r[2]), 8))
+			return Agg{val, Agg{st.zero64, st.zero64}}
+		}
+		return Agg{st.zero64, st.opaqueError("strconv.ParseFloat: invalid syntax")}
+	}
 	return m
 }
+
+type slotRef struct{ addr *smt.Term }
 
 var opaqueReflectType = types.NewNamed(types.NewTypeName(0, nil, "opaqueReflectType", nil), types.NewPointer(types.NewStruct(nil, nil)), nil)
 
@@ -345,6 +499,17 @@ func reflectKind(t types.Type) int {
 		return 25
 	}
 	return 0
+}
+
+// reflectType builds a reflect.Type interface value for a type token.
+func (st *State) reflectType(t types.Type) Value {
+	rp := st.w.P.Prog.ImportedPackage("reflect")
+	if rp == nil {
+		st.end("UNSUPPORTED", "reflect package not loaded")
+	}
+	iface := rp.Type("Type").Type()
+	rt := types.NewPointer(rp.Type("rtype").Type())
+	return Agg{st.c.Const(st.w.itabFor(iface, rt), 64), st.c.Const(st.w.tokenFor(t), 64)}
 }
 
 // opaqueError builds an error value of dynamic type *errors.errorString.
